@@ -144,6 +144,27 @@ func (p *MetadataPersister) MoveHeader(ctx context.Context, oldName string, newN
 	newName = p.getSanitizedPath(ctx, newName)
 	oldName = p.getSanitizedPath(ctx, oldName)
 
+	// Make room for the renamed primary key: drop the rows (tombstones or entries which are being replaced) that
+	// the moved rows would collide with. If there is nothing to move, nothing is dropped, so that replaying a
+	// move stays a no-op
+	if oldName != newName {
+		if _, err := queries.Raw(
+			fmt.Sprintf(
+				`delete from %v where %v = ? and %v in (select %v from %v where %v = ?);`,
+				models.TableNames.Headers,
+				models.HeaderColumns.Name,
+				models.HeaderColumns.Linkname,
+				models.HeaderColumns.Linkname,
+				models.TableNames.Headers,
+				models.HeaderColumns.Name,
+			),
+			newName,
+			oldName,
+		).ExecContext(ctx, p.sqlite.DB); err != nil {
+			return err
+		}
+	}
+
 	// We can't do this with `dbhdr.Update` because we are renaming the primary key
 	n, err := queries.Raw(
 		fmt.Sprintf(
